@@ -230,6 +230,10 @@ func init() {
 			m.inconclusive("sliceOff of concrete slice")
 			return nil
 		},
+		"freezeSchedule": func(m *Machine, c *frame, f *ssa.Function, a []Value) Value {
+			m.frozenSched = true
+			return nil
+		},
 		"blockedThreads": func(m *Machine, c *frame, f *ssa.Function, a []Value) Value {
 			n := 0
 			for _, t := range m.threads {
